@@ -269,6 +269,10 @@ def make_stub_consumer(rec):
             rec.out(O_STARTC, self.cid, t, self.partition, gen_int(self.generation), mem_int(self.member),
                     1 if start_offset == OFFSET_COMMITTED else 0)
             self._start_d = defer.Deferred()
+            k = rec.sync_start_failures.pop(0) if rec.sync_start_failures else None
+            if k is not None:      # the consumer meets an unrecoverable error before start() returns: already-failed Deferred
+                rec.sync_failed.append((self.cid, k))
+                self._start_d.errback(Failure(make_exc(k, rec.salt + self.cid)))
             return self._start_d
 
         def shutdown(self):
@@ -377,6 +381,8 @@ class Impl(object):
         self.problems = []         # things outside the canonical alphabet (reported, never silently dropped)
         self.nstart = 0
         self.nstop = 0
+        self.sync_start_failures = []   # driver: failure kinds (or None) for the next consumers' start() calls - outside the model's alphabet
+        self.sync_failed = []
         self.start_fired = []      # per start() call: has its Deferred fired?
         self.delivered = False     # did the last event reach a pending Deferred / armed call / live consumer?
         self.clock = RecClock(self)
@@ -1066,7 +1072,7 @@ def settled_verdict(kind, im, final, ok_heartbeats):
     return None
 
 
-def gen_closed_loop(rnd, settle_budget=80):
+def gen_closed_loop(rnd, settle_budget=80, sync_failures=False):
     """One history against an honest coordinator: a fault phase (evictions, rebalances, coordinator moves, time-outs, consumer commit
     errors, arbitrary scheduling), then faults cease and the schedule is fair (oldest reply first, then consumer shutdowns, then the
     armed calls, then the heartbeat tick).  Returns (kind, events, verdict) - verdict None if the member is stable (in the coordinator's
@@ -1099,11 +1105,14 @@ def gen_closed_loop(rnd, settle_budget=80):
                     choices.append(("cshut", c.cid))
             if nfault > 0 and rnd.random() < 0.25:
                 nfault -= 1
-                f = rnd.choice(["evict", "evict", "rebalance", "glitch", "glitch", "cfail"])
+                f = rnd.choice(["evict", "evict", "rebalance", "glitch", "glitch", "cfail"] + (["sync_cfail"] if sync_failures else []))
                 if f == "evict":
                     hc.evict(mem_int(im.obj.member_id))
                 elif f == "rebalance":
                     hc.rebalance()
+                elif f == "sync_cfail":
+                    # the next consumers started: one of them fails before start() returns (a commit/fetch error met at once)
+                    im.sync_start_failures = [None] * rnd.randint(0, 2) + [rnd.choice([K_REBALANCE, K_ILLGEN, K_UNKMEMBER, K_OTHERKAFKA])]
                 elif f == "glitch":
                     hc.glitch = rnd.choice([K_CNA, K_NOTCOORD, K_TIMEOUT, K_OTHERKAFKA, K_INCONSISTENT, K_REBALANCE])
                 else:
@@ -1123,6 +1132,8 @@ def gen_closed_loop(rnd, settle_budget=80):
             else:
                 do((E_CSHUT, ch[1], 0))
         hc.glitch = None
+        used_sync = bool(im.sync_failed)
+        im.sync_start_failures = []
         # ---- faults have ceased: fair schedule
         ok_heartbeats = 0
         for _ in range(settle_budget):
@@ -1153,6 +1164,7 @@ def gen_closed_loop(rnd, settle_budget=80):
         verdict = settled_verdict(kind, im, final, ok_heartbeats)
         final["ok_heartbeats"] = ok_heartbeats
         final["salt"] = salt
+        final["sync_failed"] = list(im.sync_failed)
         return kind, evs, verdict, final
     finally:
         im.close()
@@ -1176,6 +1188,19 @@ def check_histories(ck, monitor, tied, model="group", module="Model.GroupObs"):
         ck.hist("honest-coordinator:" + ("settled" if verdict is None else "NOT settled"))
         if verdict is not None:
             unsettled.append((kind, evs, verdict, final))
+    # the same closed loop with partition consumers that fail BEFORE start() returns (already-failed Deferred: outside the model's event
+    # alphabet, so these runs are judged by the settle verdict only and are not compared with the model)
+    nsync = 0
+    for _ in range(n_gen // 3):
+        kind, evs, verdict, final = gen_closed_loop(rnd, sync_failures=True)
+        if final["sync_failed"]:
+            nsync += 1
+            ck.hist("honest-coordinator+sync-consumer-failure:" + ("settled" if verdict is None else "NOT settled"))
+            if verdict is not None:
+                unsettled.append((kind, evs, verdict + "  [consumers failing inside start(): %r - not replayable from the event list alone]" % (final["sync_failed"],), final))
+        else:
+            histories.append((kind, evs, "honest-coordinator", final["salt"]))
+    ck.cov["honest_coordinator_sync_failure_runs"] = nsync
     ck.cov["honest_coordinator_unsettled"] = len(unsettled)
     for kind, evs, verdict, final in unsettled[:2]:
         ck.violation({"kind": "monitor", "failures": [[len(evs) - 1, "C17_bounded_rejoin (honest coordinator, fair schedule): " + verdict]],
